@@ -429,7 +429,7 @@ def shrink_src(src: str):
     def rec(lo, hi):
         spans = _stmt_spans(lines, lo, hi)
         for (a, b) in sorted(spans, key=lambda ab: ab[0] - ab[1]):
-            if "arith.constant" in lines[a] and "%k" in lines[a] or "%lv =" in lines[a]:
+            if "arith.constant" in lines[a] and "%k" in lines[a] or "%lv =" in lines[a] or "scf.yield" in lines[a]:
                 continue
             yield lines[:a] + lines[b:]
         for (a, b) in spans:
@@ -579,6 +579,19 @@ def run_op(op: Operation, env, m: Machine):
     else:
         raise NotImplementedError(op.name)
     return None
+
+
+def well_formed_regions(module) -> bool:
+    """every scf.if / scf.for with results ends each of its regions with a yield of as many values (the xDSL verifier is lenient
+    about this; the generators never produce anything else, the shrinker and the mutator might)"""
+    for op in module.walk():
+        if isinstance(op, (scf.IfOp, scf.ForOp)) and op.results:
+            for reg in op.regions:
+                if not reg.blocks or reg.block.last_op is None or not isinstance(reg.block.last_op, scf.YieldOp):
+                    return False
+                if len(reg.block.last_op.operands) != len(op.results):
+                    return False
+    return True
 
 
 def find_func(module, name="f"):
